@@ -79,6 +79,7 @@ pub struct Compiler
 	analyzer: analyzer::Analyzer,
 	linter: linter::Linter,
 	generator: generator::Generator,
+	exported_functions: std::collections::HashMap<String, lexer::Location>,
 }
 
 #[cfg(feature = "alpha")]
@@ -117,6 +118,7 @@ impl Compiler
 		{
 			self.typer.forward_declare_structure(declaration);
 		}
+		let duplicates = self.check_exported_functions(&declarations);
 		// Sort the declarations so that the functions are at the end and
 		// the constants and structures are declared in the right order.
 		declarations.sort_by_key(|x| scoper::get_container_depth(x, u32::MAX));
@@ -129,7 +131,55 @@ impl Compiler
 		let containers = self.analyze_and_resolve_sorted(containers, true)?;
 		let functions = self.analyze_and_resolve_sorted(functions, false)?;
 		let declarations = resolver::combine(containers, functions);
+		let declarations = resolver::combine(declarations, duplicates);
 		Ok(declarations)
+	}
+
+	/// All modules are linked together, therefore a function that is visible
+	/// to the linker cannot be defined by more than one of them.
+	fn check_exported_functions(
+		&mut self,
+		declarations: &[common::Declaration],
+	) -> Result<Vec<resolved::Declaration>, error::Errors>
+	{
+		let mut errors = Vec::new();
+		let mut exported = Vec::new();
+		for declaration in declarations
+		{
+			// These are the functions that get external linkage.
+			let name = match declaration
+			{
+				common::Declaration::Function { name, flags, .. }
+					if flags.contains(common::DeclarationFlag::Public)
+						|| flags.contains(common::DeclarationFlag::Main) =>
+				{
+					name
+				}
+				_ => continue,
+			};
+			if let Some(previous) = self.exported_functions.get(&name.name)
+			{
+				errors.push(Error::DuplicateDeclarationFunction {
+					name: name.name.clone(),
+					location: name.location.clone(),
+					previous: previous.clone(),
+				});
+			}
+			else
+			{
+				exported.push((name.name.clone(), name.location.clone()));
+			}
+		}
+		// Duplicates within one module are detected during scoping.
+		self.exported_functions.extend(exported);
+		if errors.is_empty()
+		{
+			Ok(Vec::new())
+		}
+		else
+		{
+			Err(error::Errors { errors })
+		}
 	}
 
 	fn analyze_and_resolve_sorted(
